@@ -52,8 +52,10 @@ def _c07_runs(tier, seed, replay):
         return [["torn", "--seed", S(seed, 1), "--n", "8", "--maxops", "9"],
                 ["torn", "--seed", S(seed, 2), "--n", "8", "--maxops", "9"],
                 ["torn", "--seed", S(seed, 3), "--n", "8", "--maxops", "9"],
+                ["torn", "--kind", "bits", "--seed", S(seed, 4), "--n", "6"],
                 ["torn", "--kind", "exhaustive", "--depth", "2", "--n", "1000"]]
     return ([["torn", "--seed", S(seed, 10 + i), "--n", "30", "--maxops", "12"] for i in range(14)]
+            + [["torn", "--kind", "bits", "--seed", S(seed, 40 + i), "--n", "25"] for i in range(4)]
             + [["torn", "--kind", "exhaustive", "--depth", "3", "--n", "400"]])
 
 def _c08_runs(tier, seed, replay):
@@ -109,8 +111,9 @@ def _c14_runs(tier, seed, replay):
 
 def _c10_runs(tier, seed, replay):
     if tier == "quick":
-        return [["faults", "--seed", S(seed, i), "--n", "50", "--maxops", "9"] for i in range(1, 5)]
-    return [["faults", "--seed", S(seed, 10 + i), "--n", "400", "--maxops", "12"] for i in range(12)]
+        return [["faults", "--seed", S(seed, i), "--n", "50", "--maxops", "9"] for i in range(1, 5)] + [["faults", "--kind", "replica", "--seed", S(seed, 5), "--n", "40"]]
+    return ([["faults", "--seed", S(seed, 10 + i), "--n", "400", "--maxops", "12"] for i in range(12)]
+            + [["faults", "--kind", "replica", "--seed", S(seed, 30 + i), "--n", "300"] for i in range(4)])
 
 def _c05_runs(tier, seed, replay):
     if tier == "quick":
@@ -164,7 +167,7 @@ PROPS = {
         bridge_modules=["HC.Bridge.Oplog"], bridging=OPLOG_BRIDGE,
         runs=_c10_runs,
         partial="the reduction 'fault at k = crash before k' is proved on the model's journals and inherits C02's theorems: for a writer core after any history, a fault at any storage operation of an append_batch/clear/read leaves stores that reopen to the log before or after the call (fault_recovers); that the Rust stops at the failing operation and maps the error (glue) is checked by injecting one error at every storage operation of every call",
-        rule="for every call of every history (appends, batches, clears, make_read_only, reads, reopen) and every index k of a storage operation it issues (write, delete, truncate, read, length query): the history prefix is replayed on a fresh instance, operation k fails with an I/O error; the call must return an error (not ok, no panic, no hang); drop + reopen must show exactly the state of the crash point with the same number of completed mutating operations (those crash states are compared with the Lean model and with the before/after oracle)",
+        rule="for every call of every history (appends, batches, clears, make_read_only, reads, reopen; and, on a replica, every application of an honest proof - upgrade, block, block + upgrade, in random request order with growth rounds) and every index k of a storage operation it issues (write, delete, truncate, read, length query): the history prefix is replayed on a fresh instance, operation k fails with an I/O error; the call must return an error (not ok, no panic, no hang); drop + reopen must show exactly the state of the crash point with the same number of completed mutating operations (those crash states are compared with the Lean model and with the before/after oracle)",
         trusted=LOG_TRUSTED,
     ),
     "C14": dict(
